@@ -67,16 +67,26 @@ func c04Input(r *core.Rand) inputs.Input {
 			}
 		}
 	case v < 54: // line oriented: pooled bufio.Reader
-		fams := []string{"ndjson", "ndjson_bad", "csv", "csv_ragged", "csv_ragged", "csv_big", "tsv"}
+		fams := []string{"ndjson", "ndjson_bad", "csv", "csv_ragged", "csv_ragged", "csv_big", "tsv", "json_lines", "json_lines", "csv_mix", "csv_mix"}
 		in.Fam = fams[r.Intn(len(fams))]
 		rows := []int{2, 3, 8, 50, 300, 600, 2000}[r.Intn(7)]
 		in.N = rows
 		in.V = r.Range(2, 9)
 		in.P = r.Range(1, rows)
+		if in.Fam == "csv_mix" {
+			in.N, in.V, in.P = []int{2, 3, 5, 9, 60, 400}[r.Intn(6)], csvMenu[r.Intn(len(csvMenu))], r.Intn(10)
+		}
+		if in.Fam == "json_lines" {
+			in.N, in.V, in.P = []int{1, 2, 3, 4, 8, 50}[r.Intn(6)], linesMenu[r.Intn(len(linesMenu))], r.Intn(9)
+		}
 	case v < 68:
-		fams := []string{"html_meta", "html_meta", "xml_enc", "latin1", "bom16", "text", "text_nul", "svg", "shebang", "bom8", "bom8", "utf8", "utf8", "utf8"}
+		fams := []string{"html_meta", "html_meta", "xml_enc", "latin1", "bom16", "text", "text_nul", "svg", "shebang", "bom8", "bom8", "utf8", "utf8", "utf8", "html_mix", "html_mix", "html_mix"}
 		in.Fam = fams[r.Intn(len(fams))]
 		in.V = r.Intn(6)
+		if in.Fam == "html_mix" {
+			in.N, in.V, in.P = r.Range(1, 6), htmlMenu[r.Intn(len(htmlMenu))], r.Intn(13)
+			break
+		}
 		if in.N > 60000 && in.Fam != "text" && in.Fam != "text_nul" {
 			in.N = r.Range(10, 4000)
 		}
@@ -130,6 +140,16 @@ var corpusChains []lib.Res
 
 // siblingExts lists the file extensions of the formats that share corpus entry e's
 // parent chain (its siblings in the tree, as far as the repository's samples show them).
+// linesMenu are the sets of line kinds (see the json_lines family) a run draws from:
+// everything; scalars and blank lines only; scalars, blanks and white space; with objects; ...
+var linesMenu = []int{0, 0x3c, 0x7c, 0x24, 0x64, 0x3d, 0x7f, 0xbc, 0x21, 0x60, 0x1c}
+
+// csvMenu are the sets of row kinds (see the csv_mix family); bit 12 turns the separator into a tab.
+var csvMenu = []int{0, 0, 0x1000, 0x03, 0x05, 0x09, 0x11, 0x21, 0x41, 0x81, 0x101, 0x0f, 0x7f, 0x1ff, 0x107f, 0x18, 0x45}
+
+// htmlMenu are the sets of meta element forms (see the html_mix family) a run draws from.
+var htmlMenu = []int{0, 0, 0x003, 0x006, 0x007, 0x00e, 0x016, 0x026, 0x047, 0x406, 0x806, 0x304, 0x0ff, 0xfff, 0x024, 0x404}
+
 func siblingExts(e int) []string {
 	n := len(inputs.Corpus())
 	if corpusChains == nil {
@@ -328,7 +348,31 @@ func siblingsPlan(r *core.Rand) *Plan {
 	return p
 }
 
+// ambientMenu: process-wide state outside the library that a detection has no business
+// consulting - the standard library's table of media types and file extensions (mutable
+// through mime.AddExtensionType, initialised from the host's mime.types), environment
+// variables. The reference process never sees these changes.
+var ambientMenu = []string{
+	"mime:.vf0|application/octet-stream", "mime:.vf1|application/octet-stream", "mime:.vf2|text/plain", "mime:.vf3|text/plain; charset=utf-8",
+	"mime:.vf4|application/json", "mime:.vf5|application/zip", "mime:.vf6|text/html", "mime:.txt|application/x-verif", "mime:.json|text/x-verif", "mime:.zip|application/x-verif-zip",
+	"env:LANG=ru_RU.KOI8-R", "env:LC_ALL=ja_JP.eucJP", "env:LC_CTYPE=tr_TR.ISO-8859-9", "env:TZ=Asia/Kolkata", "env:HOME=/nonexistent", "env:XDG_DATA_HOME=/nonexistent", "env:XDG_DATA_DIRS=/nonexistent",
+}
+
 func (c *c04) Plan(seed uint64, tier string, worker, workers, idx int) *Plan {
+	p := c.plan(seed, tier, worker, workers, idx)
+	r := core.NewRand(core.Mix(seed, 0xa3b1, uint64(worker), uint64(idx)))
+	if r.Chance(1, 10) && len(p.Tasks) > 0 {
+		for i, n := 0, r.Range(1, 3); i < n; i++ {
+			ti := r.Intn(len(p.Tasks))
+			at := r.Intn(len(p.Tasks[ti]) + 1)
+			op := Op{Kind: "ambient", Name: ambientMenu[r.Intn(len(ambientMenu))]}
+			p.Tasks[ti] = append(p.Tasks[ti][:at:at], append([]Op{op}, p.Tasks[ti][at:]...)...)
+		}
+	}
+	return p
+}
+
+func (c *c04) plan(seed uint64, tier string, worker, workers, idx int) *Plan {
 	if idx < 1000000 {
 		g := worker + idx*workers
 		if sp := sweepPlan(seed, g); sp != nil {
@@ -491,6 +535,10 @@ func (c *c04) Check(rr *RunResult, st *Stats) []Failure {
 			st.Ops++
 			if op.Kind == "setlimit" {
 				limit = op.Limit
+				continue
+			}
+			if op.Kind == "ambient" {
+				st.Fault("ambient_state_changed")
 				continue
 			}
 			if op.Kind == "use" {
